@@ -572,6 +572,8 @@ class simplify_chained_calls(FuncADLNodeTransformer):
             type(call_node.func) is ast.Lambda
             and call_node.func.args.vararg is None
             and call_node.func.args.kwarg is None
+            and not any(isinstance(a, ast.Starred) for a in call_node.args)
+            and not any(k.arg is None for k in call_node.keywords)
         ):
             arg_asts = [self.visit(a) for a in call_node.args]
             keyword_asts = {k.arg: self.visit(k.value) for k in call_node.keywords}
